@@ -41,8 +41,10 @@ def geometry(nw):
                 layer_altitudes=np.array([0.0, 8000.0]), layer_r0s=np.array([0.15, 0.3]), layer_L0s=np.array([25.0, 40.0]))
 
 
-def new_object(sc, nw, threads=1):
+def new_object(sc, nw, threads=1, mod=None):
     g = geometry(nw)
+    if mod:
+        g.update(mod)
     return sc.CovarianceMatrix(g["n_wfs"], g["pupil_masks"], g["telescope_diameter"], g["subap_diameters"], g["gs_altitudes"],
                                g["gs_positions"], g["wfs_wavelengths"], g["n_layers"], g["layer_altitudes"], g["layer_r0s"],
                                g["layer_L0s"], threads=threads)
@@ -358,6 +360,46 @@ def run(run):
             else:
                 continue
             break
+    # ---- histories in which the CONFIGURATION changes between builds on the same object (a build is a function of the
+    #      configuration it finds, not of what earlier builds left behind); and profiles given in other dtypes / containers
+    g0 = geometry(nw)
+    changes = [dict(layer_altitudes=np.array([2000.0, 11000.0])),
+               dict(gs_positions=g0["gs_positions"][::-1].copy() * 1.5),
+               dict(layer_r0s=np.array([0.22, 0.11]), layer_L0s=np.array([30.0, 18.0])),
+               dict(n_layers=1, layer_altitudes=np.array([6000.0]), layer_r0s=np.array([0.2]), layer_L0s=np.array([25.0]))]
+    n_reconf = 0
+    for kk in (1, 2):
+        cm = new_object(sc, nw)
+        controlled_build(sc, cm, kk, npairs, [list(range(1, npairs + 1))] * 2, [0, 1])
+        acc = {}
+        for ch in changes:
+            acc.update(ch)
+            for name, val in ch.items():
+                setattr(cm, name, val)
+            out, _, _ = controlled_build(sc, cm, kk, npairs, [list(range(npairs, 0, -1))] * 2, [1, 0])
+            fresh = np.array(new_object(sc, nw, mod=acc).make_covariance_matrix(), copy=True)
+            n_reconf += 1
+            if not same_bits(out, fresh):
+                run.violation("covariance-build:stale-configuration-after-reconfigure", dict(k=kk, changed=sorted(ch), n_diff=int((out != fresh).sum())
+                                                                                             if out.shape == fresh.shape else None),
+                              dict(kind="reconfigure", nw=nw))
+                break
+    for label, mod in (("float32-profile", dict(layer_r0s=g0["layer_r0s"].astype("float32"), layer_L0s=g0["layer_L0s"].astype("float32"),
+                                                 layer_altitudes=g0["layer_altitudes"].astype("float32"))),
+                       ("list-profile", dict(layer_r0s=list(g0["layer_r0s"]), layer_L0s=list(g0["layer_L0s"]),
+                                             gs_positions=[list(x) for x in g0["gs_positions"]], subap_diameters=list(g0["subap_diameters"]))),
+                       ("float32-sensors", dict(wfs_wavelengths=g0["wfs_wavelengths"].astype("float32"),
+                                                subap_diameters=g0["subap_diameters"].astype("float32")))):
+        ref2 = np.array(new_object(sc, nw, mod=mod).make_covariance_matrix(), copy=True)
+        for kk in (2, 3):
+            cm = new_object(sc, nw, mod=mod)
+            out, _, _ = controlled_build(sc, cm, kk, npairs, [list(range(npairs, 0, -1))] * 2, [0, 1])
+            out2, _, _ = controlled_build(sc, cm, 1, npairs, [list(range(1, npairs + 1))] * 2, [0, 1])
+            n_reconf += 2
+            if not same_bits(out, ref2) or not same_bits(out2, ref2):
+                run.violation("covariance-build:not-bit-identical:%s" % label, dict(k=kk), dict(kind="dtype", nw=nw, label=label))
+                break
+    n_builds += n_reconf
     if pools_seen == 0:
         run.notes.append("the library never asked for a pool during controlled builds (threads > 1 path changed?)")
     run.traces += n_builds
